@@ -60,6 +60,8 @@ def _droplet_desc(rng, cls, dim, modes):
     pos = [float(x) for x in rng.normal(0, 10, dim)]
     if cls == "PerturbedDroplet3DAxisSym":
         pos[0] = pos[1] = 0.0
+        if rng.random() < 0.25:
+            pos[0], pos[1] = float(rng.choice([1e-12, -3e-11, 5e-10])), float(rng.choice([-2e-12, 4e-11]))  # on the axis up to round-off
     R = 0.0 if rng.random() < 0.07 else float(rng.lognormal(0, 1.5))
     d = {"cls": cls, "pos": pos, "radius": R, "width": None, "amps": None}
     if cls != "SphericalDroplet":
@@ -100,6 +102,8 @@ def _times(rng, n, big_ints=False):
         t = [float(x) for x in sorted(rng.uniform(-50, 50, n), reverse=True)]
     elif mode == 9:  # arbitrary order with ties
         t = [float(x) for x in rng.integers(-3, 4, n)]
+        if n and rng.random() < 0.5:
+            t = [0] + [float(i) * 0.25 + 0.25 for i in range(n - 1)]  # an integer first, fractional afterwards
     elif mode == 0:
         t = list(range(n))
     elif mode == 1:
@@ -125,6 +129,8 @@ def gen(rng, kind, tier):
         case["overwrite"] = True  # the path already holds an earlier, longer collection of the same kind
     if case is not None and case["type"] == "Emulsion" and rng.random() < 0.15:
         case["stale_dtype"] = True  # emulsion created empty for another droplet class and filled afterwards
+    if case is not None and case["type"] in ("Emulsion", "EmulsionTimeCourse") and rng.random() < 0.15:
+        case["linked_then_edited"] = int(rng.integers(3))  # data linked into one array, members rearranged afterwards
     if case is not None and rng.random() < 0.3:
         # additional information stored alongside (documented argument of to_file)
         case["info"] = [{"note": "run 7"}, {"time_000000": 1, "track_000000": [1, 2]}, {"emulsion": {"a": None}},
@@ -243,6 +249,27 @@ def snap(obj):
     raise TypeError(type(obj))
 
 
+def _link_then_edit(obj, how):
+    """get_linked_data() on (the frames of) the object, then rearrange members: what is written later must be the
+    members as they are at that moment."""
+    import droplets
+
+    ems = [obj] if isinstance(obj, droplets.Emulsion) else list(obj.emulsions)
+    done = 0
+    for em in ems:
+        if len(em) < 2 or len({str(d.data.dtype) for d in em}) > 1 or len({type(d) for d in em}) > 1:
+            continue
+        em.get_linked_data()
+        if how == 0:
+            em.reverse()
+        elif how == 1:
+            em[0], em[-1] = em[-1], em[0]
+        else:
+            em[0] = em[-1].copy()
+        done += 1
+    return done
+
+
 def _write_longer(obj, path):
     """Leave an earlier file of the same kind with more entries at the path (its content is irrelevant)."""
     import droplets
@@ -307,6 +334,10 @@ def run(case, rec):
             rec.evaluated(nontrivial=False)
         return
     obj = built.result
+    if case.get("linked_then_edited") is not None:
+        ed = common.monitored(rec, "link-then-edit", _link_then_edit, obj, case["linked_then_edited"])
+        if ed.ok and ed.result:
+            rec.count("emulsions_linked_then_rearranged")
     if case.get("overwrite"):
         pre = common.monitored(rec, "earlier-write", _write_longer, obj, path)
         if pre.ok:
